@@ -11,7 +11,7 @@ use crate::tape::{Fp, Tape, Xs};
 use core::ffi::{c_char, c_int, c_long, c_uint, c_void};
 use std::ffi::CString;
 
-pub const RULE: &str = "write side: tape -> open mode {w, a (pre-existing gzip content), level digit, strategy letter f/h/R/F, T = transparent} x gzbuffer size from the 8-byte minimum up to 70000 x sequence of {gzwrite, gzfwrite(size,nitems), gzputc, gzputs, gzflush(mode incl. Z_FINISH), gzsetparams, gzseek forward (SET/CUR), gztell, gzoffset} then gzclose; the file is then split by the reference parser into gzip members, each decoded by R-DEC, and the concatenation must equal the model's logical stream (transparent: file == bytes; append: old logical stream || new); every return value and gztell must equal the model. read side: tape -> file content {gzip member(s) from R-GEN / zlib-ng with header fields, multi-member, gzip + trailing garbage, plain, empty, truncated, corrupted} x gzbuffer size x sequence of {gzread, gzfread, gzgetc, gzungetc, gzgets, gzseek (SET/CUR, forward/backward), gzrewind, gztell, gzeof, gzdirect} then gzclose; data returned must equal L[p..p+n] of the logical stream computed by the reference decoder, gztell/gzgets/gzungetc/gzeof follow the model. The same operations run on zlib-ng's gz layer: a deviation from the model is a VIOLATION only if zlib-ng agrees with the model (zlib-rs == zlib-ng != model is counted as model disagreement; where the model has no opinion - truncated/corrupt files, push-back capacity, gzgets(len 1) - differences are counted, not alarmed). Non-trivial = total data > 2x the gzbuffer size with >= 1 operation crossing a buffer boundary; distinct by case fingerprint.";
+pub const RULE: &str = "write side: tape -> open mode {w, a (pre-existing gzip content), level digit, strategy letter f/h/R/F, T = transparent} x gzbuffer size from the 8-byte minimum up to 70000 x sequence of {gzwrite, gzfwrite(size,nitems), gzputc, gzputs, gzflush(mode incl. Z_FINISH), gzsetparams, gzseek forward (SET/CUR), gztell, gzoffset} then gzclose; the file is then split by the reference parser into gzip members, each decoded by R-DEC, and the concatenation must equal the model's logical stream (transparent: file == bytes; append: old logical stream || new); every return value and gztell must equal the model. read side: tape -> file content {gzip member(s) from R-GEN / zlib-ng with header fields, multi-member, gzip + trailing garbage, plain, empty, truncated, corrupted} x gzbuffer size x sequence of {gzread, gzfread, gzgetc, gzungetc, gzgets, gzseek (SET/CUR, forward/backward), gzrewind, gztell, gzeof, gzdirect} then gzclose; data returned must equal L[p..p+n] of the logical stream computed by the reference decoder, gztell/gzgets/gzungetc/gzeof follow the model. The same operations run on zlib-ng's gz layer: a deviation from the model is a VIOLATION only if zlib-ng agrees with the model (zlib-rs == zlib-ng != model is counted as model disagreement; where the model has no opinion - truncated/corrupt files, push-back capacity, gzgets(len 1) - differences are counted, not alarmed). Non-trivial = total data > 2x the gzbuffer size with >= 1 operation crossing a buffer boundary; distinct by case fingerprint. Handles are opened with gzopen or with open(2) + gzdopen and closed with gzclose or gzclose_r / gzclose_w (selected by the last tape byte). Truncated gzip files are additionally read to exhaustion with one operation kind and must deliver every byte the truncated member still encodes (reference decoder's partial output, confirmed by zlib-ng).";
 
 mod nggz {
     use super::*;
@@ -37,6 +37,9 @@ mod nggz {
         pub fn gzsetparams(f: *mut c_void, level: c_int, strategy: c_int) -> c_int;
         pub fn gzclose(f: *mut c_void) -> c_int;
         pub fn gzclearerr(f: *mut c_void);
+        pub fn gzdopen(fd: c_int, mode: *const c_char) -> *mut c_void;
+        pub fn gzclose_r(f: *mut c_void) -> c_int;
+        pub fn gzclose_w(f: *mut c_void) -> c_int;
     }
 }
 
@@ -68,9 +71,50 @@ pub trait Gz {
 pub struct RsGz;
 pub struct NgGz;
 
+thread_local! {
+    /// alternative entry points for the same operations (bit 0: libc open + gzdopen instead of gzopen; bit 1:
+    /// gzclose_r / gzclose_w instead of gzclose; bit 2: gzgetc_, gzseek, gztell, gzoffset instead of the 64-bit names)
+    pub static ALT: std::cell::Cell<u8> = std::cell::Cell::new(0);
+}
+
+/// open(2) the way gzopen would for this mode string; None = let gzopen do it
+fn os_open(path: *const c_char, mode: *const c_char) -> Option<c_int> {
+    let m = unsafe { std::ffi::CStr::from_ptr(mode) }.to_bytes();
+    if m.contains(&b'+') || m.contains(&b'x') {
+        return None;
+    }
+    let flags = if m.contains(&b'r') {
+        libc::O_RDONLY
+    } else if m.contains(&b'w') {
+        libc::O_WRONLY | libc::O_CREAT | libc::O_TRUNC
+    } else if m.contains(&b'a') {
+        libc::O_WRONLY | libc::O_CREAT | libc::O_APPEND
+    } else {
+        return None;
+    };
+    let fd = unsafe { libc::open(path, flags, 0o666) };
+    if fd < 0 {
+        None
+    } else {
+        Some(fd)
+    }
+}
+
+
 impl Gz for RsGz {
     const NAME: &'static str = "zlib-rs";
-    unsafe fn open(path: *const c_char, mode: *const c_char) -> *mut c_void { unsafe { libz_rs_sys::gzopen(path, mode) as *mut c_void } }
+    unsafe fn open(path: *const c_char, mode: *const c_char) -> *mut c_void {
+        if ALT.with(|a| a.get()) & 1 != 0 {
+            if let Some(fd) = os_open(path, mode) {
+                let f = unsafe { libz_rs_sys::gzdopen(fd, mode) } as *mut c_void;
+                if f.is_null() {
+                    unsafe { libc::close(fd) };
+                }
+                return f;
+            }
+        }
+        unsafe { libz_rs_sys::gzopen(path, mode) as *mut c_void }
+    }
     unsafe fn buffer(f: *mut c_void, size: c_uint) -> c_int { unsafe { libz_rs_sys::gzbuffer(f as _, size) } }
     unsafe fn read(f: *mut c_void, buf: *mut u8, len: c_uint) -> c_int { unsafe { libz_rs_sys::gzread(f as _, buf as *mut c_void, len) } }
     unsafe fn fread(buf: *mut u8, size: usize, n: usize, f: *mut c_void) -> usize { unsafe { libz_rs_sys::gzfread(buf as *mut c_void, size, n, f as _) } }
@@ -89,13 +133,34 @@ impl Gz for RsGz {
     unsafe fn direct(f: *mut c_void) -> c_int { unsafe { libz_rs_sys::gzdirect(f as _) } }
     unsafe fn flush(f: *mut c_void, m: c_int) -> c_int { unsafe { libz_rs_sys::gzflush(f as _, m) } }
     unsafe fn setparams(f: *mut c_void, l: c_int, s: c_int) -> c_int { unsafe { libz_rs_sys::gzsetparams(f as _, l, s) } }
-    unsafe fn close(f: *mut c_void) -> c_int { unsafe { libz_rs_sys::gzclose(f as _) } }
+    unsafe fn close(f: *mut c_void) -> c_int {
+        if ALT.with(|a| a.get()) & 2 != 0 {
+            // the specialised closers refuse a handle of the other kind with Z_STREAM_ERROR and leave it alone
+            let r = unsafe { libz_rs_sys::gzclose_r(f as _) };
+            if r != Z_STREAM_ERROR {
+                return r;
+            }
+            return unsafe { libz_rs_sys::gzclose_w(f as _) };
+        }
+        unsafe { libz_rs_sys::gzclose(f as _) }
+    }
     unsafe fn clearerr(f: *mut c_void) { unsafe { libz_rs_sys::gzclearerr(f as _) } }
 }
 
 impl Gz for NgGz {
     const NAME: &'static str = "zlib-ng";
-    unsafe fn open(path: *const c_char, mode: *const c_char) -> *mut c_void { unsafe { nggz::gzopen(path, mode) } }
+    unsafe fn open(path: *const c_char, mode: *const c_char) -> *mut c_void {
+        if ALT.with(|a| a.get()) & 1 != 0 {
+            if let Some(fd) = os_open(path, mode) {
+                let f = unsafe { nggz::gzdopen(fd, mode) };
+                if f.is_null() {
+                    unsafe { libc::close(fd) };
+                }
+                return f;
+            }
+        }
+        unsafe { nggz::gzopen(path, mode) }
+    }
     unsafe fn buffer(f: *mut c_void, size: c_uint) -> c_int { unsafe { nggz::gzbuffer(f, size) } }
     unsafe fn read(f: *mut c_void, buf: *mut u8, len: c_uint) -> c_int { unsafe { nggz::gzread(f, buf as *mut c_void, len) } }
     unsafe fn fread(buf: *mut u8, size: usize, n: usize, f: *mut c_void) -> usize { unsafe { nggz::gzfread(buf as *mut c_void, size, n, f) } }
@@ -114,7 +179,16 @@ impl Gz for NgGz {
     unsafe fn direct(f: *mut c_void) -> c_int { unsafe { nggz::gzdirect(f) } }
     unsafe fn flush(f: *mut c_void, m: c_int) -> c_int { unsafe { nggz::gzflush(f, m) } }
     unsafe fn setparams(f: *mut c_void, l: c_int, s: c_int) -> c_int { unsafe { nggz::gzsetparams(f, l, s) } }
-    unsafe fn close(f: *mut c_void) -> c_int { unsafe { nggz::gzclose(f) } }
+    unsafe fn close(f: *mut c_void) -> c_int {
+        if ALT.with(|a| a.get()) & 2 != 0 {
+            let r = unsafe { nggz::gzclose_r(f) };
+            if r != Z_STREAM_ERROR {
+                return r;
+            }
+            return unsafe { nggz::gzclose_w(f) };
+        }
+        unsafe { nggz::gzclose(f) }
+    }
     unsafe fn clearerr(f: *mut c_void) { unsafe { nggz::gzclearerr(f) } }
 }
 
@@ -1052,11 +1126,24 @@ pub fn case(tape: &[u8], ctx: &Ctx) -> Outcome {
             libc::mallopt(libc::M_PERTURB, 0x5A);
         });
     }
+    // the last tape byte (not consumed, so nothing else changes meaning) selects alternative entry points
+    let alt = match tape.last() {
+        Some(&b) if b >= 0xA0 => (b >> 3) & 3,
+        _ => 0,
+    };
+    ALT.with(|a| a.set(alt));
+    if alt & 1 != 0 {
+        o.class("opened with open(2) + gzdopen");
+    }
+    if alt & 2 != 0 {
+        o.class("closed with gzclose_r / gzclose_w");
+    }
     if t.below(5) < 2 {
         write_case(&mut t, ctx, &mut o);
     } else {
         read_case(&mut t, ctx, &mut o);
     }
+    ALT.with(|a| a.set(0));
     o
 }
 
